@@ -1628,6 +1628,11 @@ func psCase(e *emitter, q string, kvs [][2]string, bucket string) {
 			B = 32
 		}
 		res, p := c03w2Run(q, kvs, m != 0, B)
+		if res.BuildErr && res.Panic == "" && isAggArityErr(res.Err) {
+			e.m.OutOfModel++
+			e.count("ps/aggregate_argument_count(judged_by_C14_stream_agg)")
+			return
+		}
 		if plan == nil && p != nil {
 			plan = p
 		}
